@@ -830,8 +830,18 @@ func (s *TreeShapeListener) ExitTable(ctx *parser.TableContext) {
 			}
 		}
 		if len(pks) > 0 {
-			rel.PrimaryKey = &sysl.Type_Relation_Key{
-				AttrName: pks,
+			// a table can be declared in several blocks: keep the key columns of earlier blocks
+			if rel.PrimaryKey == nil {
+				rel.PrimaryKey = &sysl.Type_Relation_Key{}
+			}
+			for _, pk := range pks {
+				known := false
+				for _, k := range rel.PrimaryKey.AttrName {
+					known = known || k == pk
+				}
+				if !known {
+					rel.PrimaryKey.AttrName = append(rel.PrimaryKey.AttrName, pk)
+				}
 			}
 		}
 	}
